@@ -868,6 +868,11 @@ def r3_ranges(program, rep):
     oc = program.get(OC + ":ordered_covering")
     O = Terms(oc)
     gm = calls_in(oc, "_get_best_merge")
+    if not gm:
+        raise AnalysisError("ordered_covering: the merge search is no "
+                            "longer a call of _get_best_merge (inlined?); "
+                            "which table it scans is not analysed in that "
+                            "form")
     oks = len(gm) == 1
     if oks:
         tab = O.term(gm[0].args[0], O.cfg.node_containing(gm[0]))
@@ -926,6 +931,11 @@ def r4_aliases(program, rep):
     oc = program.get(OC + ":ordered_covering")
     O = Terms(oc)
     gm = calls_in(oc, "_get_best_merge")
+    if not gm:
+        raise AnalysisError("ordered_covering: the merge search is no "
+                            "longer a call of _get_best_merge (inlined?); "
+                            "which table it scans is not analysed in that "
+                            "form")
     oks = len(gm) == 1
     if oks:
         tab = O.term(gm[0].args[0], O.cfg.node_containing(gm[0]))
@@ -1366,6 +1376,14 @@ def _apply_sequence(rep, ap, T, L, NEW, TAB, ENT, IDX):
             ("not", ("cmp", "In", ("elem", it), ENT))]
     ok = False
     kinds = [e[1] for e in emits]
+    if kinds == ["one", "one", "one"] and any(
+            st_[0] in ("mu", "phi") and plain(st_) != plain(IDX)
+            for e in emits for t_, p_ in e[3] for st_ in subterms(t_)
+            if st_[0] in ("mu", "phi") and getattr(
+                st_[1], "var", None) not in (None,) and
+            not any(st_ == x_ for x_ in subterms(I_T))):
+        raise AnalysisError("apply: the merged entry is placed under a flag "
+                            "/ counter these rules do not follow")
     if kinds == ["one", "one", "one"]:
         in_loop = [e for e in emits if _loop(e[0].ast) is not None]
         after = [e for e in emits if _loop(e[0].ast) is None]
